@@ -43,7 +43,7 @@ def bounds(tier):
     q = tier == "quick"
     return {"wrapped": ["ParzenWindowClassifier", "SklearnClassifier(GaussianNB)"], "flags": "all 8 combinations of use_speed_up x enforce_unique_samples x "
             "ignore_partial_fit (speed-up only for PWC)", "weights": [False, True], "index_sets": [list(i) for i in (IDX_MENU if not q else IDX_MENU[:6])],
-            "label_overrides": ["None", "all 1", "all 0"] if not q else ["None", "all 1"], "depth": 3, "depth_note": "quick: the third level uses a reduced menu (index sets [0],[1,2], stored labels, all flag combinations)",
+            "label_overrides": ["None", "all 1", "all 0"] if not q else ["None", "all 1"], "sample_weight_overrides": "None; constant 3.0 (configurations with weights)", "depth": 3, "depth_note": "quick: the third level uses a reduced menu (index sets [0],[1,2], stored labels, all flag combinations)",
             "max_states": 6000 if q else 40000}
 
 
@@ -84,7 +84,7 @@ def make_wrapper(cfg):
     return w
 
 
-def ops_menu(tier, level=0):
+def ops_menu(tier, level=0, wts=False):
     b = bounds(tier)
     ys = [None, 1.0] if tier == "quick" else [None, 1.0, 0.0]
     sets = b["index_sets"]
@@ -95,22 +95,30 @@ def ops_menu(tier, level=0):
     for idx in sets:
         for yv in ys:
             for sb in (False, True):
-                ops.append(("fit", tuple(idx), yv, None, sb))
+                ops.append(("fit", tuple(idx), yv, None, sb, None))
                 for ub in (False, True):
-                    ops.append(("partial_fit", tuple(idx), yv, ub, sb))
+                    ops.append(("partial_fit", tuple(idx), yv, ub, sb, None))
+    if wts and (tier != "quick" or level < 2):
+        # explicit sample_weight overrides that differ from the constructor's weights (stored labels, all flag combinations)
+        for idx in ([[0], [1, 2]] if tier == "quick" else sets[:4]):
+            for sb in (False, True):
+                ops.append(("fit", tuple(idx), None, None, sb, 3.0))
+                for ub in (False, True):
+                    ops.append(("partial_fit", tuple(idx), None, ub, sb, 3.0))
     return ops
 
 
 def apply_op(w, op):
-    kind, idx, yv, ub, sb = op
+    kind, idx, yv, ub, sb, wv = op
     idx = np.array(idx)
     y = None if yv is None else np.full(len(idx), yv)
+    sw = None if wv is None else np.full(len(idx), wv)
     with warnings.catch_warnings():
         warnings.simplefilter("ignore")
         if kind == "fit":
-            w.fit(idx, y=y, set_base_clf=sb)
+            w.fit(idx, y=y, sample_weight=sw, set_base_clf=sb)
         else:
-            w.partial_fit(idx, y=y, use_base_clf=ub, set_base_clf=sb)
+            w.partial_fit(idx, y=y, sample_weight=sw, use_base_clf=ub, set_base_clf=sb)
 
 
 class Ref:
@@ -122,16 +130,16 @@ class Ref:
         self.cur = None  # list of (i, y, w) or list of chunks
         self.base = None
 
-    def _triples(self, idx, yv):
+    def _triples(self, idx, yv, wv=None):
         out = []
         for i in idx:
-            out.append((i, Y[i] if yv is None else yv, W[i] if self.cfg["wts"] else None))
+            out.append((i, Y[i] if yv is None else yv, (W[i] if wv is None else wv) if self.cfg["wts"] else None))
         return out
 
     def apply(self, op):
         """returns 'ok' | 'notfitted'"""
-        kind, idx, yv, ub, sb = op
-        t = self._triples(idx, yv)
+        kind, idx, yv, ub, sb, wv = op
+        t = self._triples(idx, yv, wv)
         if kind == "fit":
             self.cur = [list(t)] if self.native else list(t)
         else:
@@ -191,13 +199,13 @@ def state_fp(w):
 
 
 def fmt(h):
-    return " -> ".join("%s(%s%s%s%s)" % (o[0], list(o[1]), "" if o[2] is None else ", y=%g" % o[2], "" if not o[3] else ", use_base_clf", "" if not o[4]
-                                          else ", set_base_clf") for o in h)
+    return " -> ".join("%s(%s%s%s%s%s)" % (o[0], list(o[1]), "" if o[2] is None else ", y=%g" % o[2], "" if o[5] is None else ", sample_weight=%g" % o[5],
+                                            "" if not o[3] else ", use_base_clf", "" if not o[4] else ", set_base_clf") for o in h)
 
 
 def explore(acc, cfg, tier):
     b = bounds(tier)
-    ops = ops_menu(tier)
+    ops = ops_menu(tier, 0, cfg["wts"])
     frontier = [()]
     seen = set()
     name = "IndexClassifierWrapper[%s%s%s%s%s]" % (cfg["clf"], ",speed_up" if cfg["speed"] else "", ",unique" if cfg["uniq"] else "",
@@ -205,7 +213,7 @@ def explore(acc, cfg, tier):
     capped = False
     for depth in range(b["depth"]):
         nxt = []
-        ops = ops_menu(tier, depth)
+        ops = ops_menu(tier, depth, cfg["wts"])
         for hist in frontier:
             for op in ops:
                 h2 = hist + (op,)
@@ -224,7 +232,7 @@ def explore(acc, cfg, tier):
                 acc.transitions += 1
                 exp = ref.apply(op)
                 wit = {"configuration": cfg, "X": X.tolist(), "y": [0, 1, None, 1], "sample_weight": W.tolist() if cfg["wts"] else None, "history": fmt(h2)}
-                rep = {"cfg": cfg, "history": [[o[0], list(o[1]), o[2], o[3], o[4]] for o in h2]}
+                rep = {"cfg": cfg, "history": [[o[0], list(o[1]), o[2], o[3], o[4], o[5]] for o in h2]}
                 size = len(h2) * 10 + sum(len(o[1]) for o in h2)
                 try:
                     apply_op(w, op)
@@ -268,7 +276,7 @@ def explore(acc, cfg, tier):
     acc.states += len(seen)
     if capped:
         acc.cap("state cap for %s" % name)
-    acc.sample({"configuration": cfg, "example_history": fmt((ops[0], ops[5])), "states": len(seen)}, limit=1)
+    acc.sample({"configuration": cfg, "example_history": fmt((ops_menu(tier, 0, cfg["wts"])[0], ops_menu(tier, 0, cfg["wts"])[5])), "states": len(seen)}, limit=1)
     return name
 
 
@@ -276,7 +284,7 @@ def compare_speedup(acc, cfg, tier):
     """same histories with use_speed_up on / off"""
     if cfg["clf"] != "pwc" or not cfg["speed"]:
         return
-    ops = ops_menu(tier)
+    ops = ops_menu(tier, 0, cfg["wts"])
     cfg_off = dict(cfg, speed=False)
     hists = [(a,) for a in ops] + [(a, b_) for a in ops[::3] for b_ in ops[::2]]
     for h in hists:
@@ -294,7 +302,7 @@ def compare_speedup(acc, cfg, tier):
         acc.case(("speedup", repr(cfg), h))
         name = "IndexClassifierWrapper[speed_up on/off]"
         wit = {"configuration": cfg, "history": fmt(h)}
-        rep = {"cfg": cfg, "history": [[o[0], list(o[1]), o[2], o[3], o[4]] for o in h], "speedcmp": True}
+        rep = {"cfg": cfg, "history": [[o[0], list(o[1]), o[2], o[3], o[4], o[5]] for o in h], "speedcmp": True}
         if a[0] != b_[0] or (a[0] == "exc" and a[1] != b_[1]):
             acc.violation(name, "speed_up_changes_outcome", "%s: with speed-up %s, without %s" % (fmt(h), a[0] if a[0] == "ok" else a[1], b_[0] if b_[0] == "ok" else b_[1]),
                           wit, {}, rep, len(h))
@@ -324,8 +332,8 @@ def replay(spec):
     """targeted replay of one recorded history (the explorer is not needed)"""
     cfg = spec["cfg"]
     cfg = {"clf": cfg["clf"], "speed": bool(cfg["speed"]), "uniq": bool(cfg["uniq"]), "ign": bool(cfg["ign"]), "wts": bool(cfg["wts"])}
-    hist = [(o[0], tuple(int(i) for i in o[1]), None if o[2] is None else float(o[2]), (None if o[3] is None else bool(o[3])), bool(o[4]))
-            for o in spec["history"]]
+    hist = [(o[0], tuple(int(i) for i in o[1]), None if o[2] is None else float(o[2]), (None if o[3] is None else bool(o[3])), bool(o[4]),
+             None if len(o) < 6 or o[5] is None else float(o[5])) for o in spec["history"]]
     out = []
     if spec.get("speedcmp"):
         res = []
